@@ -2,6 +2,7 @@ import Driver.Proto
 import SpsdkVerif.Model.Fresh
 import SpsdkVerif.Generated.SecretSites
 import SpsdkVerif.Model.FreshObj
+import SpsdkVerif.Model.FreshFile
 import SpsdkVerif.Generated.SecretState
 open SpsdkVerif Driver
 open SpsdkVerif.Fresh
@@ -92,7 +93,42 @@ def renderObjRun (h : List Step) : String :=
       (seen', acc.2 ++ [s!"{if a.supplied then 1 else 0}:c{l}"])) ([], [])
   if out.isEmpty then "_" else "/".intercalate out
 
+/-
+  sources                 -> `idx|kind|scope|var|loc|guard|altFile;...`   Generated.secretSources
+  frun 5 _ b0/b0/p3/b1/x  -> same-directory rebuild history for source row 5, initial file `_` (none) or a user value number:
+                             `b0`/`b1` build without / with the reuse flag, `p<u>` user places key file u, `x` directory cleaned;
+                             answer per step: `-` (no artifact: place / clean), `E` (build failed), `<reuse>:u<k>` / `<reuse>:c<rank>`.
+-/
+def sourcesLine : String :=
+  let rows := (Generated.secretSources.zipIdx).map fun (r, i) =>
+    s!"{i}|{kindStr r.kind}|{r.scope}|{r.var}|{r.loc}|{if r.guard == .flag then "flag" else "fileExists"}|{if r.altFile then 1 else 0}"
+  if rows.isEmpty then "-" else ";".intercalate rows
+
+def parseFStep (s : String) : Option FStep :=
+  if s == "b0" then some (.build false) else if s == "b1" then some (.build true) else if s == "x" then some .remove
+  else if s.startsWith "p" then (s.drop 1).toString.toNat?.map .place else none
+
+def renderFRun (g : Guard) (init : Option Nat) (h : List FStep) : String :=
+  let s0 : FSt := { file := init.map .user }
+  let (_, _, out) := h.foldl (fun (acc : FSt × List Token × List String) st =>
+    let (s, seen, out) := acc
+    let s' := fstep g s st
+    if s'.arts.length == s.arts.length then
+      (s', seen, out ++ [match st with | .build _ => "E" | _ => "-"])
+    else match s'.arts.head? with
+      | some a =>
+        match a.val with
+        | .user u => (s', seen, out ++ [s!"{if a.reuse then 1 else 0}:u{u}"])
+        | .chosen t => let (l, seen') := labelOf seen t; (s', seen', out ++ [s!"{if a.reuse then 1 else 0}:c{l}"])
+      | none => (s', seen, out ++ ["?"])) (s0, [], [])
+  if out.isEmpty then "_" else "/".intercalate out
+
 def step : List String → String
+  | ["sources"] => sourcesLine
+  | ["frun", i, init, h] =>
+    match i.toNat?.bind (Generated.secretSources[·]?), (h.splitOn "/").mapM parseFStep with
+    | some r, some hh => renderFRun r.guard (if init == "_" then none else init.toNat?) hh
+    | _, _ => "bad-op"
   | ["slots"] => slotsLine
   | ["objrun", h] => match (h.splitOn "/").mapM parseStep with
     | some hh => renderObjRun hh
